@@ -44,6 +44,11 @@ EXT_STOCHASTIC = {
     "scipy.sparse.linalg.svds": ("v0", "ARPACK"),
     "scipy.sparse.linalg.lobpcg": ("X", "ARPACK"),
 }
+# sources of run-to-run variation that no seed parameter can reach: (no seed keyword, family ENTROPY)
+for _p in ("os.urandom", "secrets.randbelow", "secrets.randbits", "secrets.choice", "secrets.token_bytes", "secrets.token_hex", "secrets.token_urlsafe",
+           "uuid.uuid1", "uuid.uuid4", "time.time", "time.time_ns", "time.perf_counter", "time.perf_counter_ns", "time.monotonic", "time.monotonic_ns",
+           "time.process_time", "datetime.datetime.now", "datetime.datetime.utcnow", "datetime.datetime.today", "datetime.date.today", "random.SystemRandom", "os.getpid"):
+    EXT_STOCHASTIC[_p] = (None, "ENTROPY")
 EXT_STOCHASTIC_NAME = re.compile(r"^networkx\.(.*\.)?(\w*random\w*|gn[pm]_\w*)$")
 # deterministic third-party callables that merely look stochastic
 EXT_DETERMINISTIC = {"networkx.kamada_kawai_layout", "networkx.spectral_layout", "networkx.circular_layout", "networkx.shell_layout", "networkx.bipartite_layout", "networkx.planar_layout"}
